@@ -47,7 +47,7 @@ CONSTANTS
   HookUniverse, \* finalize hooks a behaviour may register: [id, rets, raises]
   BindApis,     \* binding API paths explored: "tuple", "string", "text", "block"
   FreshConfs,   \* descriptors that Register may add during a behaviour
-  BindFilter(_, _), \* which values a behaviour may bind to which configurable (keeps reference graphs acyclic)
+  BindFilter(_, _, _), \* (scope, descriptor, value): which values a behaviour may bind to which configurable (keeps reference graphs acyclic)
   ConstVals,    \* values of constants
   QuerySpellings, \* spellings used by Query
   ConstNames,   \* names DefineConstant may use (sequences of components)
@@ -255,7 +255,7 @@ CallW(cf, S, c, scope, call) ==
       kwd   == b.kw
       \* the body
       rec   == [sel |-> c.sel, scope |-> scope, delivered |-> deliv, va |-> b.va, kw |-> kwd]
-      S3    == [S2 EXCEPT !.evals = Append(@, rec)]
+      S3    == IF c.body = "record" THEN [S2 EXCEPT !.evals = Append(@, rec)] ELSE S2   \* only probes are observable
   IN
   LET okret(S4, ret) == [s |-> S4, status |-> "ok", ret |-> ret, delivered |-> deliv, va |-> b.va, kw |-> kwd,
                          missing |-> <<>>, ran |-> TRUE]
@@ -375,14 +375,26 @@ ConstNameSet == { k.name : k \in consts } \cup {ReqName}
 
 \* ParserDelegate.macro (861-869): %name is resolved when the text is parsed
 \* <<"pct", comps>>: comps are the dot-components of the name (a scope-free name)
-ResolvePct(v) ==
-  IF Tag(v) # "pct" THEN <<"ok", v>>
-  ELSE LET m == MatchSet(ConstNameSet, v[2]) IN
-       IF Cardinality(m) = 1 THEN <<"ok", <<"ref", GinConstSel, <<JoinDots(CHOOSE n \in m : TRUE)>>, "call">>>>
-       ELSE IF Cardinality(m) > 1 THEN <<"ValueError", v>>                            \* ambiguous constant
-       ELSE <<"ok", <<"ref", GinMacroSel, <<JoinDots(v[2])>>, "call">>>>
+RECURSIVE ResolveVal(_)
+\* result: <<"ok" | "ValueError", value with every %name replaced by the reference it denotes>>
+ResolveVal(v) ==
+  CASE Tag(v) = "pct" ->
+         LET m == MatchSet(ConstNameSet, v[2]) IN
+         IF Cardinality(m) = 1 THEN <<"ok", <<"ref", GinConstSel, <<JoinDots(CHOOSE n \in m : TRUE)>>, "call">>>>
+         ELSE IF Cardinality(m) > 1 THEN <<"ValueError", v>>                            \* ambiguous constant
+         ELSE <<"ok", <<"ref", GinMacroSel, <<JoinDots(v[2])>>, "call">>>>
+    [] Tag(v) \in {"list", "tuple"} ->
+         LET rs == [i \in 1..Len(v[2]) |-> ResolveVal(v[2][i])] IN
+         IF \E i \in 1..Len(rs) : rs[i][1] # "ok" THEN <<"ValueError", v>>
+         ELSE <<"ok", <<Tag(v), [i \in 1..Len(rs) |-> rs[i][2]]>>>>
+    [] Tag(v) = "dict" ->
+         LET rs == [i \in 1..Len(v[2]) |-> ResolveVal(v[2][i][2])] IN
+         IF \E i \in 1..Len(rs) : rs[i][1] # "ok" THEN <<"ValueError", v>>
+         ELSE <<"ok", <<"dict", [i \in 1..Len(rs) |-> <<v[2][i][1], rs[i][2]>>]>>>>
+    [] OTHER -> <<"ok", v>>
+ResolvePct(v) == ResolveVal(v)
 
-
+------------------------------------------------------------------------------
 (* Actions *)
 SameKey(a, b) == a.scope = b.scope /\ a.sel = b.sel /\ a.param = b.param
 HasKey(cf, scope, sel, p) == \E i \in 1..Len(cf) : cf[i].scope = scope /\ cf[i].sel = sel /\ cf[i].param = p
@@ -402,7 +414,7 @@ Init ==
 \* bind_parameter (1032-1078)
 Bind(api, scope, c, p, v) ==
   /\ "Bind" \in Enabled
-  /\ c \in reg /\ p \in BindNames(c) /\ BindFilter(c, v)
+  /\ c \in reg /\ p \in BindNames(c) /\ BindFilter(scope, c, v)
   /\ IF locked
      THEN /\ out' = [op |-> "Bind", api |-> api, scope |-> scope, sel |-> c.sel, param |-> p, val |-> v,
                        status |-> "RuntimeError", why |-> "locked"]
@@ -454,7 +466,7 @@ Call(c, call) ==
   /\ LET r == CallW(cfg, MkS(okeys, oper, singles, <<>>), c, CurScope, call) IN
      /\ okeys' = r.s.okeys /\ oper' = r.s.oper /\ singles' = r.s.singles
      /\ out' = [op |-> "Call", sel |-> c.sel, pargs |-> call.pargs, ckw |-> call.kw, status |-> r.status, delivered |-> r.delivered, va |-> r.va, kw |-> r.kw,
-                missing |-> r.missing, ran |-> r.ran, evals |-> r.s.evals]
+                missing |-> r.missing, ran |-> r.ran, ret |-> r.ret, evals |-> r.s.evals]
   /\ UNCHANGED <<reg, cfg, stack, locked, usaved, interactive, consts, hooks>>
 
 \* clear_config (1004-1029)
@@ -476,6 +488,32 @@ BuiltinHookVerdict(cf) ==
      ELSE IF \E v \in vals : Tag(v) = "unk" THEN "ValueError"                         \* unknown configurable
      ELSE IF \E i \in 1..Len(cf) : cf[i].val = <<"ref", GinConstSel, <<"gin.REQUIRED">>, "call">>
           THEN "ValueError"                                                          \* still %gin.REQUIRED
+     ELSE "ok"
+
+\* dict-of-dicts iteration order of the store: keys by first insertion, then parameters
+KeysInOrder(cf) ==
+  LET idx == SelectSeq([i \in 1..Len(cf) |-> i],
+                       LAMBDA i : \A j \in 1..(i - 1) : ~(cf[j].scope = cf[i].scope /\ cf[j].sel = cf[i].sel))
+  IN [k \in 1..Len(idx) |-> <<cf[idx[k]].scope, cf[idx[k]].sel>>]
+NestedOrder(cf) ==
+  FlattenSeq([k \in 1..Len(KeysInOrder(cf)) |->
+                SelectSeq(cf, LAMBDA b : <<b.scope, b.sel>> = KeysInOrder(cf)[k])])
+
+\* find_missing_overrides_hook (2871-2883) *calls* every top-level constant reference, which leaves a
+\* ("name", gin.constant) record in the operative configuration (never printed); it stops at %gin.REQUIRED
+ConstRefsEvaluatedByFinalize(cf) ==
+  LET no   == NestedOrder(cf)
+      refs == SelectSeq(no, LAMBDA b : Tag(b.val) = "ref" /\ b.val[2] = GinConstSel /\ b.val[4] = "call")
+      stop == { i \in 1..Len(refs) : refs[i].val[3] = <<"gin.REQUIRED">> }
+      upto == IF stop = {} THEN Len(refs) ELSE CHOOSE i \in stop : \A j \in stop : i <= j
+  IN { [scope |-> refs[i].val[3], sel |-> GinConstSel] : i \in 1..upto }
+MacroAndUnknownVerdict(cf) ==
+  LET vals == AllValues(cf)
+      macroRefs == { v \in vals : Tag(v) = "ref" /\ v[2] = GinMacroSel }
+      keys == { <<cf[i].scope, cf[i].sel>> : i \in 1..Len(cf) }
+  IN IF \E r \in macroRefs : <<r[3], GinMacroSel>> \notin keys THEN "ValueError"
+     ELSE IF \E r \in macroRefs : r[4] = "bare" THEN "ValueError"
+     ELSE IF \E v \in vals : Tag(v) = "unk" THEN "ValueError"
      ELSE "ok"
 
 \* one key returned by a hook: [scope, spelling, param, val] -> verdict and parsed key
@@ -510,6 +548,8 @@ ApplyAll(cf, upd) ==
 Finalize ==
   /\ "Finalize" \in Enabled
   /\ Len(stack) = 1                         \* outside any config_scope (see DESIGN.md section 8)
+  /\ okeys' = IF ~locked /\ MacroAndUnknownVerdict(cfg) = "ok"
+               THEN okeys \cup ConstRefsEvaluatedByFinalize(cfg) ELSE okeys
   /\ IF locked
      THEN /\ out' = [op |-> "Finalize", status |-> "RuntimeError"]
           /\ UNCHANGED <<cfg, locked>>
@@ -523,7 +563,7 @@ Finalize ==
           ELSE /\ cfg' = ApplyAll(cfg, r[2])
                /\ locked' = TRUE
                /\ out' = [op |-> "Finalize", status |-> "ok"]
-  /\ UNCHANGED <<reg, stack, okeys, oper, usaved, interactive, singles, consts, hooks>>
+  /\ UNCHANGED <<reg, stack, oper, usaved, interactive, singles, consts, hooks>>
 
 RegisterHook(h) ==
   /\ "RegisterHook" \in Enabled
@@ -621,6 +661,9 @@ ViewUnordered == <<reg, ToSet(cfg), stack, okeys, oper, locked, usaved, interact
 \* for invariants that quantify over all calls in a state: only the store and the active scope matter
 ViewStore == <<reg, ToSet(cfg), CurScope>>
 ViewStoreOrdered == <<reg, cfg, CurScope>>
+\* `out` never influences later steps: exhaustive runs that check `out` through action properties drop it
+ViewNoOut == <<reg, cfg, stack, okeys, oper, locked, usaved, interactive, singles, consts, hooks>>
+ViewNoOutUnordered == <<reg, ToSet(cfg), stack, okeys, oper, locked, usaved, interactive, singles, consts, hooks>>
 \* scenario export: the last action's record is part of the view only through what it changed
 ViewUnorderedNoOut == <<reg, cfg, stack, locked, usaved, interactive, consts, hooks, out.op>>
 
@@ -833,7 +876,7 @@ ExpEvals(cf, c, scope, supplied) ==
                      LET occ == RefOccs(kw[i][2]) IN
                      FlattenSeq([j \in 1..Len(occ) |->
                         ExpEvals(cf, ConfBySel(occ[j][2]), IF occ[j][3] # <<>> THEN occ[j][3] ELSE scope, {})])]
-  IN FlattenSeq(perParam) \o << <<c.sel, scope>> >>
+  IN FlattenSeq(perParam) \o (IF c.body = "record" THEN << <<c.sel, scope>> >> ELSE <<>>)
 
 SuppliedNames(c, call) ==
   LET args == IF c.kind \in {"cls", "meth"} THEN <<Self>> \o call.pargs ELSE call.pargs
@@ -852,5 +895,58 @@ C04_HoldsFor(c, call) ==
            => e[2] = <<"fnref", Longest(app).val[2], Longest(app).val[3]>>
 
 C04_Refs == \A c \in reg : c.body = "record" => \A call \in CallSpace(c, 0, FALSE, {}) : C04_HoldsFor(c, call)
+
+------------------------------------------------------------------------------
+(* C05: macros and constants are late-bound named values *)
+\* what %name must deliver now: the value most recently bound to the macro (the store holds
+\* exactly the most recent binding of every key), a constant's own object, ...
+C05_HoldsFor(c, call) ==
+  LET r == CallW(cfg, MkS({}, {}, {}, <<>>), c, CurScope, call) IN
+  r.status = "ok" =>
+    \A e \in r.delivered :
+      LET app == Applicable(cfg, c.sel, e[1], CurScope)
+          v   == Longest(app).val
+      IN (e[1] \notin SuppliedNames(c, call) /\ app # {} /\ Tag(v) = "ref" /\ v[4] = "call") =>
+           /\ (v[2] = GinConstSel =>                                   \* that very object
+                 \/ (v[3] = <<"gin.REQUIRED">> /\ e[2] = Req)
+                 \/ \E k \in consts : <<JoinDots(k.name)>> = v[3] /\ e[2] = k.val)
+           /\ (v[2] = GinMacroSel =>
+                 LET mb == Applicable(cfg, GinMacroSel, "value", v[3]) IN
+                 /\ mb # {}                                              \* a successful use implies a binding
+                 /\ (Tag(Longest(mb).val) \in {"lit", "nonlit"} => e[2] = Longest(mb).val))
+
+C05_Macros == \A c \in reg : c.body = "record" => \A call \in CallSpace(c, 0, FALSE, {}) : C05_HoldsFor(c, call)
+
+\* a %name use resolves to a constant iff, when it was parsed, it was an unambiguous dotted suffix
+\* (or the complete name) of a defined constant; ambiguous abbreviations are errors
+C05_Resolve ==
+  out.op = "Bind" /\ Tag(out.val) = "pct" /\ out.why \in {"ok", "ambiguous-constant"} =>
+    LET K == ConstNameSet
+        D == IF out.val[2] \in K THEN {out.val[2]} ELSE { n \in K : SuffixOf(out.val[2], n) }
+    IN /\ (out.status = "ok") <=> (Cardinality(D) <= 1)
+       /\ (out.status = "ok" /\ Cardinality(D) = 1) =>
+             \E i \in 1..Len(cfg) : cfg[i].val = <<"ref", GinConstSel, <<JoinDots(CHOOSE n \in D : TRUE)>>, "call">>
+
+\* duplicate / invalid constant definitions are errors outside interactive mode
+C05_ConstDefine ==
+  [][(out'.op = "DefineConstant") =>
+       LET clash == MatchSet(ConstNameSet, out'.name) # {} IN
+       /\ (out'.status = "ok") <=> (out'.valid /\ (interactive \/ ~clash))
+       /\ (out'.status # "ok") => consts' = consts]_vars
+
+\* finalize rejects macros that are referenced but never bound or referenced without being evaluated
+C05_Finalize ==
+  [][(out'.op = "Finalize" /\ out'.status = "ok") =>
+       \A v \in AllValues(cfg) :
+         (Tag(v) = "ref" /\ v[2] = GinMacroSel) =>
+            /\ v[4] = "call"
+            /\ \E i \in 1..Len(cfg) : cfg[i].sel = GinMacroSel /\ cfg[i].scope = v[3]]_vars
+
+------------------------------------------------------------------------------
+(* state predicates over `out`, as action properties (so that VIEWs may drop `out`) *)
+C05_ResolveA == [][C05_Resolve']_vars
+C11_AcceptA == [][C11_Accept']_vars
+C12_LockedIsValidatedA == [][C12_LockedIsValidated']_vars
+C20_PristineA == [][C20_Pristine']_vars
 
 =============================================================================
